@@ -92,6 +92,9 @@ def run_cfg(ctx, p, cfg):
         from rules import c07
         c07.rule_directories(ctx, p, cfg, "O3e")
         c07.rule_move_file(ctx, p, cfg, "O3f")          # "the first new record starts a fresh file": the move that archives the old content takes it away from the active path on every success path (C07.R5 re-evaluated)
+        if "config_parsing" in p.meta.get("features", []):
+            from rules import c14
+            c14.rule_roller_window_from_document(ctx, p, cfg, "O3h")   # "becomes the newest archive": of the window the document states, not of the default one
         c07.rule_roll_moves_file(ctx, p, cfg, "O3g")   # the start-up roll is never retried: the archive directory is made sure of at roll time (C07.R10 re-evaluated)
     rolling.rule_reopen(ctx, p, cfg, "O3d")  # .. and the path the roller is handed (O3b: the appender's own) is the path that was opened
 
